@@ -587,8 +587,13 @@ class LocalModel:
         self.rejected_call(fn, what)
         return False, None
 
+    def bad_option(self):
+        # an additional option that is not a string makes Popen raise TypeError: a launch failure
+        # that is not an OSError
+        return any(not isinstance(x, str) for x in self.options)
+
     def will_fail_launch(self):
-        return self.bad_bin or self.exec_dir == self.sess.exec_dirs[2]
+        return self.bad_bin or self.exec_dir == self.sess.exec_dirs[2] or self.bad_option()
 
     # ---- ops
     def op_start(self):
@@ -596,8 +601,10 @@ class LocalModel:
             self.rejected_call(self.app.start, "start")
             return
         if self.will_fail_launch():
-            self.o.expect_raises(OSError, self.app.start, "launch_failure_propagates", "start with a tool that cannot be launched")
+            self.o.expect_raises((OSError, TypeError), self.app.start, "launch_failure_propagates", "start with a tool that cannot be launched")
             self.state, self.path = "CANCELLED", "launch_failure"
+            if self.bad_option():
+                self.o.label("launch_failure_not_oserror")
             return
         ok, _ = self.allowed(self.app.start, "start")
         self.state = "RUNNING"
@@ -747,7 +754,10 @@ class LocalModel:
                 self.guarded(("CREATED",), lambda: self.app.set_stdin(f), "set_stdin")
             elif name == "get":
                 g = op[1]
-                if g == "get_command":
+                if g == "get_command" and self.bad_option():
+                    # the command line cannot be rendered with a non-string option (TypeError from str.join)
+                    o.label("get_command_skipped_bad_option")
+                elif g == "get_command":
                     ok, val = self.guarded(("RUNNING", "FINISHED", "JOINED", "CANCELLED"), self.app.get_command, g)
                     if ok:
                         self.hooks["check_command"](val)
@@ -875,6 +885,7 @@ COMMON_SETTERS = [
     ["set_exec_dir", 2],
     ["add_options", ["--verif-a"]],
     ["add_options", ["--verif-b", "--verif-c"]],
+    ["add_options", ["--verif-n", 4]],
     ["set_stdin"],
 ]
 COMMON_GETTERS = ["get_command", "get_process", "get_exit_code", "get_stdout", "get_stderr"]
@@ -991,7 +1002,7 @@ MSA_APPS = {
         "tool": "fake_clustalo",
         "custom": False,
         "matrix": {"protein": False, "nucleotide": False},
-        "setters": [["full_matrix"]],
+        "setters": [["full_matrix"], ["set_guide_tree"], ["set_distance_matrix"]],
         "getters": ["get_guide_tree", "get_distance_matrix"],
     },
     "mafft": {
@@ -1068,7 +1079,7 @@ def st_msa(tier):
         case["tool"] = tool
         case["bin"] = draw(st.sampled_from(["ok"] * 14 + ["missing", "noexec"]))
         case["ops"] = draw(
-            st_ops(COMMON_SETTERS + spec["setters"], COMMON_GETTERS + MSA_GETTERS + spec["getters"], tool["gate"])
+            st_ops(spec["setters"] * 3 + COMMON_SETTERS, MSA_GETTERS + spec["getters"] + COMMON_GETTERS, tool["gate"])
         )
         return case
 
@@ -1196,6 +1207,19 @@ def run_msa(case):
                 ok, _ = model.guarded(("CREATED",), app.full_matrix_calculation, name)
                 if ok:
                     s["full"] = True
+            elif name in ("set_guide_tree", "set_distance_matrix"):
+                from biotite.sequence.phylo import upgma
+
+                nseq = len(seqs)
+                dist = np.array([[abs(i - j) for j in range(nseq)] for i in range(nseq)], dtype=float)
+                if name == "set_guide_tree":
+                    tree = upgma(dist)
+                    ok, _ = model.guarded(("CREATED",), lambda: app.set_guide_tree(tree), name)
+                else:
+                    ok, _ = model.guarded(("CREATED",), lambda: app.set_distance_matrix(dist), name)
+                if ok:
+                    s[name] = True
+                    o.label("clustalo_" + name)
             elif name == "set_gap_penalty":
                 pen = op[1] if not isinstance(op[1], list) else tuple(op[1])
                 ok, _ = model.guarded(("CREATED",), lambda: app.set_gap_penalty(pen), name)
